@@ -160,7 +160,7 @@ class ProductFamily:
         @return bool :
         """
         if self.hasVersion(version):
-            itsTags = [y[0] for y in [x for x in self.versions.items() if x[1] == version]]
+            itsTags = [y[0] for y in [x for x in self.tags.items() if x[1] == version]]
             for tag in itsTags:
                 self.unassignTag(tag)
             del self.versions[version]
